@@ -342,7 +342,7 @@ PROPERTIES = {
         "assumptions": COMMON_ASSUME + ["addresses are not part of the model: relocation independence is checked on the implementation (every transition is executed twice, at two addresses), not proved"],
     },
     "C05": {
-        "scopes": lambda tier: aset_scopes(tier) + tree_scopes(tier, logs=False, rnd=False)[:6] + hset_scopes(tier, rnd=False)[:3],
+        "scopes": lambda tier: aset_scopes(tier) + tree_scopes(tier, logs=False, rnd=False)[:6] + hset_scopes(tier, rnd=False)[:3] + pstr_scopes("quick") + podstr_scopes("quick") + pod_scopes("quick"),
         "relevant": rel_none,
         "assumptions": COMMON_ASSUME + ["memory safety of safe Rust and of bytemuck's checked casts is trusted; guard regions and Miri support the search, they are not the proof"],
         "rule": "implementation transitions, each executed twice between 64-byte guard regions of two different patterns at two different addresses; non-trivial = distinct byte states with >= 2 members and a free slot",
@@ -364,7 +364,7 @@ PROPERTIES = {
         "assumptions": COMMON_ASSUME,
     },
     "C09": {
-        "scopes": lambda tier: tree_scopes(tier, logs=False, rnd=False) + hset_scopes(tier, rnd=False) + aset_scopes(tier, logs=False, rnd=False),
+        "scopes": lambda tier: tree_scopes(tier, logs=False, rnd=False) + hset_scopes(tier, rnd=False) + aset_scopes(tier, logs=False, rnd=False) + [x for x in edge_tree_scopes(tier) + edge_other_scopes(tier) if x["args"].get("mode") == "random"],
         "relevant": rel_C09,
         "assumptions": COMMON_ASSUME,
     },
